@@ -175,6 +175,8 @@ def grammar_cases(rng: random.Random) -> List[Dict[str, Any]]:
     seg1, seg2 = min(dw * 64, (1 << w) // 8), min(dw * 128, (1 << w) // 4)
     add('internal-name', pre + 'ns _ {\n' + f'segment {seg1}\n;\n' * k + f'segment {seg2}\nwflip_area_start_{k if rng.random() < 0.7 else 0}:\n;\n}}\n',
         ['wflip_area_start', 'twice'])
+    # the same collision in the other order: the user label first, the segment that declares the internal one after it
+    add('internal-name', pre + f'ns _ {{\nwflip_area_start_{k}:\n}}\n;\n' + f'segment {seg1}\n;\n' * (k + 1), ['wflip_area_start', 'twice'])
     deep = rng.choice([300, 1200, 3000])
     add('deep-expression', f'lz:\n' + pre + ';' + 'lz+1+' * deep + '1\n', [])
     add('deep-expression', pre + ';' + '(' * deep + '1' + ')' * deep + '\n', [])
